@@ -362,9 +362,13 @@ func atoi(t string) int {
 	return n
 }
 
+// endlessReader: the given prefix, then a unit of filler repeated for ever. The unit ends with a pre element,
+// so a streaming decoder's goroutine parks in its next pipe Write soon after every delivered word: how much of
+// the source it has consumed by then is a stable quantity (no race with a producer that keeps running).
 type endlessReader struct {
 	prefix   []byte
-	filler   []byte
+	unit     []byte
+	off      int
 	consumed int64
 	stop     int32
 }
@@ -379,7 +383,9 @@ func (r *endlessReader) Read(b []byte) (int, error) {
 		r.prefix = r.prefix[n:]
 	} else {
 		for n < len(b) {
-			n += copy(b[n:], r.filler)
+			k := copy(b[n:], r.unit[r.off:])
+			n += k
+			r.off = (r.off + k) % len(r.unit)
 		}
 	}
 	atomic.AddInt64(&r.consumed, int64(n))
@@ -387,11 +393,13 @@ func (r *endlessReader) Read(b []byte) (int, error) {
 }
 
 func lazy(prefix []byte, fillKind int) string {
-	fill := []byte("<!-- filler --> \n")
+	line := "<!-- filler --> \n"
 	if fillKind == 1 {
-		fill = []byte("<p>text outside pre</p>\n")
+		line = "<p>text outside pre</p>\n"
 	}
-	src := &endlessReader{prefix: prefix, filler: fill}
+	unit := []byte(strings.Repeat(line, 64) + "<pre>QUJD</pre>\n")
+	src := &endlessReader{prefix: prefix, unit: unit}
+	base, bw0 := runtime.NumGoroutine(), blockedWriters()
 	type res struct {
 		n   int
 		err error
@@ -410,10 +418,12 @@ func lazy(prefix []byte, fillKind int) string {
 	var out string
 	select {
 	case r := <-ch:
+		settle(base, bw0)
 		c := atomic.LoadInt64(&src.consumed)
 		bucket := "small"
-		if c > 1<<20 {
-			bucket = "over-1MiB"
+		// the prefix, the filler up to the next word, and what the tokenizer reads in one go (at most 64 KiB)
+		if c > int64(len(prefix)+len(unit))+3*65536 {
+			bucket = "over:" + strconv.FormatInt(c, 10)
 		}
 		if r.err != nil && r.n == 0 {
 			out = "first=error consumed=" + bucket
